@@ -6,9 +6,13 @@ import "sort"
 // values sent) by its rank among all of them: an order isomorphism, so that the numbers fit TLC's
 // 32-bit integers. 0 (absent / "must not exist") stays 0.
 func RankGens(evs []Op) {
-	set := map[int64]bool{}
+	RankVisit(func(f func(*int64)) { VisitOps(evs, f) })
+}
+
+// VisitOps applies f to every generation-like number of the given events.
+func VisitOps(evs []Op, f func(*int64)) {
 	visitView := func(v *View, f func(*int64)) { f(&v.Gen) }
-	visit := func(f func(*int64)) {
+	{
 		for i := range evs {
 			e := &evs[i]
 			f(&e.Gen)
@@ -41,6 +45,24 @@ func RankGens(evs []Op) {
 			}
 		}
 	}
+}
+
+// VisitObs applies f to every generation of a read-back.
+func VisitObs(o *Obs, f func(*int64)) {
+	if o == nil {
+		return
+	}
+	for b := range o.Buckets {
+		for i := range o.Buckets[b].Objs {
+			f(&o.Buckets[b].Objs[i].View.Gen)
+			f(&o.Buckets[b].Objs[i].MediaGen)
+		}
+	}
+}
+
+// RankVisit ranks all the numbers the visitor reaches.
+func RankVisit(visit func(f func(*int64))) {
+	set := map[int64]bool{}
 	visit(func(p *int64) {
 		if *p != 0 {
 			set[*p] = true
